@@ -474,4 +474,39 @@ CHECKS["C17"] = {
                   "documented max(now + MIN_TD, wall) rule of node_scheduler.h).",
 }
 
+CHECKS["C07"] = {
+    "title": "Simulation runs are reproducible and isolated from each other",
+    "level": "model_checking",
+    "technique": "exhaustive enumeration of process histories (operation sequences over builds, runs, builder reuse, co-existing executors) with a "
+                 "fresh-process differential oracle; plus stateless model checking under a controlled scheduler: every position of wall-clock jumps, "
+                 "and every interleaving of two threads that wire, build and run independent graphs, up to a deviation bound",
+    "design_ref": "DESIGN.md 2/C07",
+    "parts": [
+        {"name": "hist", "exe": "c07_repro", "sources": ["c07_repro.cpp"], "sub": "hist", "shards": 32},
+        {"name": "clock", "exe": "c07_repro", "sources": ["c07_repro.cpp"], "sub": "clock", "shards": 8, "pin": True},
+        {"name": "threads", "exe": "c07_repro", "sources": ["c07_repro.cpp"], "sub": "threads", "shards": 32, "pin": True},
+    ],
+    "rule": "9 self-contained programs x 2 inputs (node State accumulator + dense record; a node counting in GlobalState; map_ with stateful "
+            "children; switch_; reduce_; feedback loop; nested graph with a clock-reading node; replay -> record; the GlobalState program wired and "
+            "run under a GlobalContext with a seeded caller-owned state). Scripts are scalars and observations are appended to the run's own global "
+            "state, so the harness has no global through which runs could couple. The trace of a run = its log + counters + recorded/replayed "
+            "buffers + (context program) the caller-owned state. Reference = the same program run alone in a FRESH process (self-exec). "
+            "hist: every sequence of <= L operations over a 50-letter alphabet {R fresh build+run, B run on the builder cached in this history "
+            "(reuse count grows), W wire+finish only, X two executors made from one builder and both alive, C context program}; every run must "
+            "reproduce its reference byte for byte and a builder's seed state must be unchanged by runs. clock: each program under the controlled "
+            "scheduler where the wall clock may jump 7 s ahead before any clock read. threads: each pair of programs wired, built and run on two "
+            "controlled threads, every interleaving at mutex/condvar operations (type registries, plan factories, intern tables). "
+            "non-trivial = history of length >= 2 / schedule differing from the default.",
+    "bounds": {"quick": "histories: L<=3 over 50 letters; clock: <= 2 jumps; threads: 1 preemption for all 45 unordered pairs, 2 for three pairs (GlobalState/GlobalContext, map_/switch_, record/replay)",
+               "thorough": "histories: L<=4 over 58 letters; <= 3 jumps; 2 preemptions for all 81 ordered pairs"},
+    "min_counters": {"quick": {"nontrivial": 100000, "threads.executions": 5000, "clock.executions": 500}},
+    "assumptions": COMMON_ASSUMPTIONS + [
+        "Unsynchronised data races are outside a scheduler that switches at synchronisation operations (no ThreadSanitizer build of the tree in this image's budget).",
+        "Concurrent executors are explored as whole wire+build+run threads; evaluation itself takes no lock, so two runs' cycles are not interleaved below lock granularity.",
+    ],
+    "level_text": "Complete enumeration of bounded process histories against fresh-process references, and CHESS-style bounded-preemption coverage of two-thread build+run.",
+    "level_note": "Trusted: the fresh-process run as the reference (a defect that also shows in a fresh process alone is invisible here and is the "
+                  "subject of the other properties); harness/vsched.h for the controlled parts.",
+}
+
 NOT_APPLICABLE = {}
